@@ -118,6 +118,11 @@ def PC.preId : PC → List Nat
   | .nlLock _ sg | .nlRead _ sg | .nlAppend _ sg | .nlRel _ sg => [sg.sid]
   | _ => []
 
+/-- the id a thread at this code position has just put into a queue (its `enqueue_signal` has not returned yet) -/
+def PC.postId : PC → List Nat
+  | .putRel sg _ _ | .relFound sg => [sg.sid]
+  | _ => []
+
 /-- ids submitted but not yet put (one per thread that is inside `enqueue_signal` before its `put`) -/
 def TState.preIds (s : TState) : List Nat := s.pcs.flatMap PC.preId
 /-- ids waiting in some queue (all queue objects ever created, open or closed) -/
